@@ -61,8 +61,8 @@ func hasKindOrLogical(s ref.Schema) (narrow, logical, fixed bool) {
 }
 
 var (
-	c13Scratch []byte
-	c13ReadBuf = avro.NewReadBuf(nil)
+	c13Scratch  []byte
+	c13ReadBuf  = avro.NewReadBuf(nil)
 	c13WriteBuf = avro.NewWriteBuf(make([]byte, 0, 128))
 )
 
